@@ -49,6 +49,7 @@ namespace
         GridSpec g;
         std::vector<double> elev;
         std::vector<std::string> ops;
+        std::vector<std::size_t> base;  // explicit base levels (empty: the grid's fixed-value nodes)
         std::string str() const
         {
             std::ostringstream o;
@@ -58,6 +59,12 @@ namespace
             o << ";ops=";
             for (std::size_t i = 0; i < ops.size(); ++i)
                 o << (i ? "/" : "") << ops[i];
+            if (!base.empty())
+            {
+                o << ";bl=";
+                for (std::size_t i = 0; i < base.size(); ++i)
+                    o << (i ? " " : "") << base[i];
+            }
             return o.str();
         }
         static Scen parse(const std::string& s)
@@ -69,6 +76,10 @@ namespace
                 if (!t.empty())
                     sc.elev.push_back(unhexd(t));
             sc.ops = split(kv["ops"], '/');
+            if (kv.count("bl"))
+                for (auto& t : split(kv["bl"], ' '))
+                    if (!t.empty())
+                        sc.base.push_back(static_cast<std::size_t>(std::atoi(t.c_str())));
             return sc;
         }
     };
@@ -99,6 +110,8 @@ namespace
         prog.ops = { sequential || t0 <= 1 ? std::string("single") : "single" + std::to_string(t0) };
         Built<G> b = build_graph(grid, prog);
         auto& fg = *b.fg;
+        if (!sc.base.empty())
+            fg.set_base_levels(sc.base);
         auto field = make_field(grid, sc.elev);
         bool routed = false;
         std::size_t k = 0;
@@ -371,6 +384,21 @@ int main(int argc, char** argv)
         add(tm, 1, { "U," + std::to_string(t) }, 0, true, 64);
         add(rqn, 1, { "U," + std::to_string(t) }, 0, true, 64);
     }
+    // a wide breadth-first level: 3x3 queen raster draining into its centre (the only base
+    // level), so one level holds 8 nodes; many workers, minimum block size 2 and 3 (the block
+    // count is reduced by the minimum size), first schedules only (race / result verdict)
+    {
+        GridSpec rc = raster_spec(QUEEN, 3, 3, "CCCC", true);
+        for (auto& ops : std::vector<std::vector<std::string>>{ { "K,5,2,1,b" }, { "K,6,2,1,b" }, { "K,8,3,1,b" }, { "K,3,2,1,b" }, { "U,5", "K,5,2,1,a" } })
+        {
+            Scen sc;
+            sc.g = rc;
+            sc.elev = { 2, 1, 2, 1, 0, 1, 2, 1, 2 };
+            sc.ops = ops;
+            sc.base = { 4 };
+            jobs.push_back({ sc, 0, true, 64 });
+        }
+    }
     if (th)
     {
         add(r33, 1, { "U,2", "K,2,1,2,b", "U,3" }, 0, true, 300000);
@@ -392,7 +420,8 @@ int main(int argc, char** argv)
         cfg.max_executions = j.cap;
         cfg.horizon = 200000;
         double el = std::chrono::duration<double>(std::chrono::steady_clock::now() - t0).count();
-        cfg.deadline_s = std::max(5.0, budget - el);
+        // even share of what is left among the jobs still to run (unused time rolls over)
+        cfg.deadline_s = std::max(5.0, (budget - el) / static_cast<double>(jobs.size() - ji));
         mc::ExploreStats st = mc::explore([&]() { run_scenario(j.sc, false, exp); }, cfg, signatures);
         std::string ops;
         for (auto& o : j.sc.ops)
